@@ -466,6 +466,9 @@ def compare(case, out, model):
         if bad:
             P(f"{nm}/order/not-monotone", f"{nm}: {bad}", "entries are element-wise non-decreasing in the quantile")
     # ---- count is n at every quantile; constant metrics -------------------------------------------
+    nall = case["ncf"] + case["nsf"]
+    seen_full = {tuple(case["cols"][j][i] for j in range(nall)) for rsm in rs for i in rsm}
+    seen_cf = {k[:case["ncf"]] for k in seen_full}
     for j, (code, c) in enumerate(case["codes"]):
         cq = Fraction(c[0], c[1])
         if code == 0 and case["ncf"] == 0:
@@ -486,8 +489,16 @@ def compare(case, out, model):
                 pt = res[POINTS[OUTS.index(nm)]]
                 for t, x in enumerate(res[nm]["entries"]):
                     cells = [row[j] for row in x["values"]]
+                    # NaN is legitimate only at an index entry that no resample shows (levels that exist
+                    # only through the product of per-column values)
+                    if x["keys"] is None:
+                        must = [True] * len(cells)
+                    elif nm == "by_group_ci":
+                        must = [tuple(k) in seen_full for k in x["keys"]]
+                    else:
+                        must = [tuple(k) in seen_cf for k in x["keys"]]
                     if any(not (math.isnan(cl) or _close(cl, ex)) for cl in cells) or \
-                            (x["keys"] is None and any(math.isnan(cl) for cl in cells)):
+                            any(mu and math.isnan(cl) for mu, cl in zip(must, cells)):
                         P(f"{nm}/constant-metric/quantile-differs", f"{nm}[{t}] column {j} = {cells} for a metric "
                           f"that is {const} on every sample (expected {ex})",
                           "a metric that is constant over the rows has all quantiles equal to the point estimate")
@@ -608,7 +619,6 @@ def shrink(case):
         for i in range(len(case["codes"])):
             yield dict(case, codes=case["codes"][:i] + case["codes"][i + 1:])
     if case["n"] > 4:
-        for i in range(case["n"]):
-            c = dict(case, n=case["n"] - 1, pred=case["pred"][:i] + case["pred"][i + 1:],
-                     cols=[col[:i] + col[i + 1:] for col in case["cols"]])
-            yield c
+        for i in (0, case["n"] // 2, case["n"] - 1):
+            yield dict(case, n=case["n"] - 1, pred=case["pred"][:i] + case["pred"][i + 1:],
+                       cols=[col[:i] + col[i + 1:] for col in case["cols"]])
